@@ -5,6 +5,9 @@
 EXTENDS AeroTable, Integers, Sequences
 
 AbsV(x) == IF x < 0 THEN -x ELSE x
+\* every observation is range-checked before any arithmetic: a wildly wrong value is a wrong value, not an overflow in the verdict
+Sane(x) == x > -1000000000 /\ x < 1000000000
+SaneAll(s) == \A i \in 1..Len(s) : Sane(s[i])
 \* 0.1 %; the first conjunct keeps the product inside TLC's 32-bit integers when an observation is wildly off
 Within01pct(x, t) == AbsV(x - t) <= 2000000 /\ AbsV(x - t) * 1000 <= t
 Rel1e6(a, b) == AbsV(a - b) <= (b \div 1000000) + 1          \* 1e-6 relative (+1 unit of projection)
@@ -12,7 +15,8 @@ Rel1e6(a, b) == AbsV(a - b) <= (b \div 1000000) + 1          \* 1e-6 relative (+
 \* e.k: table row (H = -500 + 500 (k-1) m); e.p in 0.01 Pa, e.rho in 1e-7 kg/m3, e.T in mK
 V_aero_isa(e) ==
   LET t == IsaTable[e.k] IN
-  IF ~Within01pct(e.p, t[1]) THEN "isa_pressure_off_by_more_than_0.1_percent"
+  IF ~SaneAll(<<e.p, e.rho, e.T>>) THEN "isa_value_out_of_range"
+  ELSE IF ~Within01pct(e.p, t[1]) THEN "isa_pressure_off_by_more_than_0.1_percent"
   ELSE IF ~Within01pct(e.rho, t[2]) THEN "isa_density_off_by_more_than_0.1_percent"
   ELSE IF ~Within01pct(e.T, t[3]) THEN "isa_temperature_off_by_more_than_0.1_percent"
   ELSE "ok"
@@ -24,10 +28,11 @@ V_aero_track(e) ==
 
 \* values just below / just above 11 000 m (p in 1e-4 Pa, rho in 1e-9, T in 1e-6 K)
 V_aero_tropopause(e) ==
-  IF \A k \in 1..3 : Rel1e6(e.lo[k], e.hi[k]) THEN "ok" ELSE "atmosphere_discontinuous_at_tropopause"
+  IF ~(SaneAll(e.lo) /\ SaneAll(e.hi)) THEN "isa_value_out_of_range"
+  ELSE IF \A k \in 1..3 : Rel1e6(e.lo[k], e.hi[k]) THEN "ok" ELSE "atmosphere_discontinuous_at_tropopause"
 
 \* v -> f -> f^-1 in micrometres per second (Mach in 1e-9)
-V_aero_inverse(e) == IF Rel1e6(e.back, e.v) THEN "ok" ELSE "conversion_pair_not_inverse"
+V_aero_inverse(e) == IF Sane(e.back) /\ Rel1e6(e.back, e.v) THEN "ok" ELSE "conversion_pair_not_inverse"
 
 \* rows sorted by input: strictly increasing output
 V_aero_monotone(e) ==
@@ -37,7 +42,8 @@ V_aero_monotone(e) ==
 \* tas given; eas, cas derived (micrometres per second); at H = 0 all three coincide
 \* "at altitude" = at or above sea level (below it the air is denser than at sea level and EAS exceeds TAS)
 V_aero_order(e) ==
-  IF e.h >= 0 /\ e.eas > e.tas + 1 THEN "tas_below_eas"
+  IF ~SaneAll(<<e.eas, e.cas>>) THEN "speed_out_of_range"
+  ELSE IF e.h >= 0 /\ e.eas > e.tas + 1 THEN "tas_below_eas"
   ELSE IF e.h >= 0 /\ e.eas > e.cas + 1 THEN "cas_below_eas"
   ELSE IF e.h = 0 /\ ~(Rel1e6(e.eas, e.tas) /\ Rel1e6(e.cas, e.tas)) THEN "sea_level_speeds_differ"
   ELSE "ok"
@@ -53,7 +59,8 @@ HavWant(la1, lo1, la2, lo2) ==       \* x 1e4, every step rounded to the nearest
       b == RDiv(1000000 - CosDeg(lo1 - lo2), 200)                   \* x 1e4
   IN  a + RDiv(RDiv(c1 * c2, 40000) * b, 10000)
 V_aero_distance(e) ==
-  IF AbsV(e.d12 - e.d21) > 1 THEN "distance_not_symmetric"
+  IF ~SaneAll(<<e.d12, e.d21, e.hav, e.brg>>) THEN "distance_out_of_range"
+  ELSE IF AbsV(e.d12 - e.d21) > 1 THEN "distance_not_symmetric"
   ELSE IF AbsV(e.hav - HavWant(e.la1, e.lo1, e.la2, e.lo2)) > 3 THEN "distance_disagrees_with_haversine"
   ELSE IF e.brg < 0 \/ e.brg >= 360000 THEN "bearing_out_of_range"
   ELSE "ok"
